@@ -234,3 +234,21 @@ PROPS["C18"] = {
     "outside_claim": ["YAML parsing and unit-string parsing (yaml.Unmarshal, units.go): the claim starts at the decoded v2 value, so 'any reordering of YAML mapping keys' is covered as 'any Go map iteration order'", "the version hash (json.Marshal/SortJSON/SHA-256)"],
     "assumptions": ["service/placement/profile names are concrete"],
 }
+
+LOOP_STUBS = COMMON_STUBS + [
+    "goroutines -> one goroutine (the loop under test) is executed; every `go f()` becomes a task that runs atomically at a scheduler-chosen later select or blocking receive (covers runner.Do / deploymentManager.do); all other parties are environment channels with harness generators",
+    "select -> choice over ready cases and pending tasks, all explored; timers (time.After/NewTimer) are sources that may fire at any later select",
+    "collaborators (session, query/tx client, cluster, pricing, bus, subscriber) -> harness stubs whose outcome (ok/error) is a scheduler choice; context cancellation is not observed by stubs",
+    "prometheus metrics, loggers -> no-ops",
+]
+PROPS["C13"] = {
+    "jobs": [{"pkg": "provider/bidengine", "files": ["harness/C13/order.go"], "shims": ["shim.go.tmpl", "shim_loop.go.tmpl"],
+              "quick": ["Harness_C13_fresh_7", "Harness_C13_overbid_7", "Harness_C13_existing_8"],
+              "thorough": ["Harness_C13_fresh_9", "Harness_C13_overbid_7", "Harness_C13_existing_10"],
+              "opts": {"timeout": 20000, "witness": 4}, "reach": {"Harness_C13_fresh_7": ["returned"]}}],
+    "bounds": {"quick": "(*order).run with both values of checkForExistingBid; <=7 (existing-bid: 8) selects before shutdown is forced, then the post-loop clean-up and drain; <=2 chain events drawn from 6 kinds (lease won / lost / other group, order closed this / other, unrelated); every asynchronous step (group query, existing-bid query, reservation, pricing, bid broadcast, close-bid broadcast) completes ok or fails at any scheduler-chosen point, including after the loop has exited; bid timeout; shutdown at any point; strategy price below and above the order's maximum",
+               "thorough": "9 / 10 selects"},
+    "stubs": LOOP_STUBS,
+    "outside_claim": ["true multi-goroutine interleavings inside one component and data races", "shouldBid's auditor-signature path (no signature requirements in the harness order)", "the bidengine service's order bookkeeping"],
+    "assumptions": ["an asynchronous step's effects happen atomically at its completion point"],
+}
